@@ -273,6 +273,14 @@ def solver_cases(tier):
                     continue
                 for pre in ("none", "sat", "eval", "branch"):
                     out.append((labels, kinds, pre))
+    # unprotected constraints that contradict each other next to a protected one (a simplify() that detects the
+    # contradiction must still keep the protected constraint)
+    for a, b in (("x==3", "x==5"), ("x<u2", "x==3"), ("x==5", "x<u5"), ("x==3", "x!=0")):
+        for prot in ("x+y==5", "c", "x<u5"):
+            for kind in ("avoid", "inner-si", "user-U"):
+                for order in itertools.permutations([(a, "none"), (b, "none"), (prot, kind)]):
+                    for pre in ("none", "sat"):
+                        out.append((tuple(o[0] for o in order), tuple(o[1] for o in order), pre))
     return out
 
 
